@@ -11,8 +11,13 @@ def gen_crypto_node(rng, kind, lens):
     ctr = rng.pick(CTR_POOL + [rng.getrandbits(128) >> rng.pick([0, 8, 64])])
     if ctr + (ln + 40) // 16 + 2 >= 1 << 128:
         ctr = (1 << 128) - 40
-    if rng.chance(0.5):
+    r = rng.random()
+    if r < 0.45:
         base = ['bio', rng.rbytes(ln)]
+    elif r < 0.55:
+        # a base that REJECTS writes (a merged split file is read-only): a write through the wrapper raises what the base raises,
+        # and everything after that write must go on as if it had not happened
+        base = ['merge', [[['bio', rng.rbytes(ln + rng.pick([0, 0, 5]))], ln]]]
     else:
         off = rng.randint(1, 37)
         base = ['sub', off, ln, ['bio', rng.rbytes(off + ln + rng.pick([0, 0, 3, 20]))]]
